@@ -1,7 +1,7 @@
 """Rendering obligations (C02.c, C03.b, C07.a, C09.b, C10/C11 rendering part): a real documentation entry of shard-constant kind
 and shape, with symbolic text pieces, is rendered by the real *.process + RSTWriter and compared with spec_render by ONE equality."""
 import hc, spec, delta
-from typing import List
+from typing import List, Tuple
 from cminx.rstwriter import RSTWriter
 from cminx.config import Settings
 import cminx.documentation_types as dt
@@ -48,14 +48,16 @@ NS = _count()
 NB = {"function": 1, "macro": 1, "test": 1, "section": 1, "class": len(SHAPE.get("ctors", [])) + len(SHAPE.get("methods", []))}.get(KIND, 0)
 
 
-def check(s: List[str], b: List[bool]) -> bool:
+NCP = @@NCP@@            # NS * L
+
+
+def check(cps: $$CPS$$, b: List[bool]) -> bool:
     """
-    pre: len(s) == NS and len(b) == NB
-    pre: all(len(x) == L and chr(10) not in x and chr(13) not in x for x in s)
+    pre: len(b) == NB and hc.cps_ok(cps, bad=(10, 13))
     post: _
     """
-    it = iter(s)
-    nx = lambda: next(it)
+    pc = hc.Pieces(cps)
+    nx = lambda: pc.take(L)
     doc = ""
     for i in DOC:
         doc = doc + _shape(i, nx()) + chr(10)
@@ -116,4 +118,4 @@ def check(s: List[str], b: List[bool]) -> bool:
         ok = got.startswith(head) and got.endswith(chr(10) + chr(10) + "   :type: UNSET" + chr(10) + chr(10))
     else:
         ok = got == spec.heading("T", "#") + delta.render_entry(ab)
-    return hc.report(ok, s=s, b=b)
+    return hc.report(ok, cps=cps, b=b)
